@@ -50,7 +50,8 @@ class QInteger(QToken):
     def check(string: str):
         token = ""
         for char in string:
-            if char.isdigit():
+            # NOTE: not isdigit(), which also accepts characters like '²' that int() rejects
+            if char.isdecimal():
                 token += char
             else:
                 break
